@@ -11,21 +11,27 @@ rule `g`; `semi12 gx gl f a h` is `seminorm_h_1_2(f, a, a+h)`; `semi12g` the cur
 `semi12pwVal` is `seminorm_h_1_2_pw`.  Every theorem holds for *every* base rule (any nodes, any
 weights, any length), every integrand and every interval unless a hypothesis says otherwise.
 
-Full statements that are NOT formalised (kept here as required; `_partial` versions below):
+Full statements:
+
+  theorem semi12_exact : (∀ k ≤ N, mom gx k = 1/(k+2)) → Exact1 gl N → … → 2 * deg ≤ N + 2 → h ≠ 0 →
+      semi12 gx gl (evalPoly cs) a h = ∫_a^{a+h} ∫_a^{a+h} (f x - f y)² / (x - y)² dy dx
+    — PROVED in `Props/C14Integral.lean` (`semi12_eq_integral_poly`, `semi12_exact`; for the generated code
+    `NormsTie.gen_h12_eq_integral_poly`): for polynomial `f` the quotient `(f x - f y)/(x - y)` is the divided-difference
+    polynomial, the integrand is a polynomial, the double integral is proper; the Duffy substitution is carried out with
+    Mathlib interval integrals.  `semi12_exact_partial` below (one value for all exact rules) is kept under its name;
+    its value is that integral.
 
   theorem semi14_exact : (∀ k ≤ N, mom g k = 2/(2k+1)) → cs.length ≤ deg + 1 → 2 * deg ≤ N → 0 < h →
       √h · semi14 g (evalPoly cs) a h = ∫_a^{a+h} ∫_a^{a+h} (f x - f y)² / |x - y|^{3/2} dy dx
-  theorem semi12_exact : (∀ k ≤ N, mom gx k = 1/(k+2)) → Exact1 gl N → … → 2 * deg ≤ N + 2 → 0 < h →
-      semi12 gx gl (evalPoly cs) a h = ∫_a^{a+h} ∫_a^{a+h} (f x - f y)² / (x - y)² dy dx
-
-Proved instead (`semi14_exact_partial`, `semi12_exact_partial`, `*_reduction`, `*_moment_form`,
-`*_exact_indep`, `*_weight_moment`): the value returned for exact rules is a single number `v(f, a, h)`
-— the bilinear moment form of the Duffy-transformed polynomial integrand evaluated at the moments of the
-weight, which are the real integrals `∫₀¹ xᵏ x^{-1/2}`, `∫₀¹ xᵏ x`, `∫₀¹ xᵏ`.  Missing: linearity of the
-iterated real integral over `Span2` (routine) and the Duffy substitution turning the improper double
-integral into `2 ∫₀¹∫₀¹ (.) x^{-1/2} y^{-1/2}` resp. `2 ∫₀¹∫₀¹ (.) x` (classical calculus, trusted; the
-harness compares the real code, run with exact-moment rational rules, with the closed form of the double
-integral computed independently, and that closed form was validated against brute-force integration).
+    — NOT formalised (`semi14_exact_partial`).  Here the integrand is not a polynomial (`|x - y|^{1/2}` remains after
+    dividing out `(x - y)²`), the double integral is improper at the diagonal.  Proved: `semi14_exact_partial`,
+    `semi14_reduction`, `semi14_moment_form`, `semi14_exact_indep`, `sqrtinv_weight_moment`: the value returned for exact
+    rules is a single number `v(f, a, h)` — the bilinear moment form of the Duffy-transformed polynomial integrand
+    evaluated at the moments of the weight, which are the real integrals `∫₀¹ xᵏ x^{-1/2}`.  Missing: linearity of the
+    iterated real integral over `Span2` with the weights `x^{-1/2} y^{-1/2}` and the Duffy substitution turning the
+    improper double integral into `2 ∫₀¹∫₀¹ (.) x^{-1/2} y^{-1/2}` (classical calculus, trusted; the harness compares the
+    real code, run with exact-moment rational rules, with the closed form of the double integral computed independently,
+    and that closed form was validated against brute-force integration).
 Binary64 rounding ("twelve digits") is not modelled.
 -/
 namespace Stbem.C14
@@ -145,7 +151,9 @@ theorem semi12_exact_indep (gx gl gx' gl' : Rule1) (N : Nat)
   Quad.semi12_exact_indep gx gl gx' gl' N hmx hml hx hl hx' hl' cs deg hlen hdeg a h hh
 
 /-- **closed form, H^{1/2}**: one value for all pairs of rules with the moments `1/(k+2)` (weight
-`x`) and `1/(k+1)` (Legendre) up to order `N`, `2 deg f ≤ N + 2` -/
+`x`) and `1/(k+1)` (Legendre) up to order `N`, `2 deg f ≤ N + 2`.  (The name is historical: the identification of this
+value with the double integral — formerly missing — is `semi12_eq_integral_poly` / `semi12_exact` in
+`Props/C14Integral.lean`.) -/
 theorem semi12_exact_partial (cs : List Rat) (a h : Rat) (hh : h ≠ 0) (deg : Nat) (hlen : cs.length ≤ deg + 1) :
     ∃ v : Rat, ∀ (gx gl : Rule1) (N : Nat), 2 * deg ≤ N + 2 →
       (∀ k, k ≤ N → mom gx k = 1 / ((k : Rat) + 2)) → Exact1 gl N →
